@@ -27,7 +27,7 @@ Fixpoint serving (ps : list (rid * list Z)) (i : Z) : list Z :=
   match ps with [] => [] | (r, p) :: t => if memZ i r then p else serving t i end.
 
 Definition run_dis (g : graph) (kinds : string) (oms : list (list Z * option Z)) (cutoff : nat)
-           (rqs : list drq) (declared : list grp)
+           (judge_all : bool) (rqs : list drq) (declared : list grp)
            (obs_dedup : list Z) (obs_ids : list rid) (obs_groups : list grp) (obs : dobs) : string :=
   let n := mk_net g kinds oms in
   let dd := deduplicate declared in
@@ -69,7 +69,18 @@ Definition run_dis (g : graph) (kinds : string) (oms : list (list Z * option Z))
         end
     | DOther => "v=X"%string
     end in
-  join "|" [d_s; a_s; o_s; f_s; v_s].
+  (* existence of an assignment for the whole batch as gnpy sees it after aggregation: one route per remaining
+     request, link-disjoint whenever two of them are named together in a remaining group *)
+  let x_s :=
+    if judge_all then
+      let brqs := flat_map (fun i : rid => match find_rq rqs (hd 0 i) with
+                                           | Some r => [(hd 0 i, d_src r, d_dst r, eff_inc r)] | None => [] end) obs_ids in
+      let bgroups := map (fun d => map (fun x => hd 0 x) (members d)) obs_groups in
+      let grouped_ids := concat bgroups in
+      append "x=" (bs (exists_disjoint_assignment n cutoff bgroups
+                         (filter (fun r : breq => memZ (b_id r) grouped_ids) brqs)))
+    else "x=-"%string in
+  join "|" [d_s; a_s; o_s; f_s; v_s; x_s].
 
 (* isdisjoint helper on raw integer lists *)
 Definition run_isdisjoint (cases : list (list Z * list Z)) : string :=
